@@ -5,13 +5,14 @@
 (* is reported (MISMATCH line) and validation continues with the state      *)
 (* advanced from what the implementation really did.                        *)
 (***************************************************************************)
-EXTENDS Crl, Names, Strings, TLC, Json, IOUtils
+EXTENDS Crl, Names, Strings, Pem, KeyLife, TLC, Json, IOUtils
 
 Rec == ndJsonDeserialize(IOEnv.TRACE)
 
 VARIABLES l, nmis,
-          names      \* C20: handle -> distinguished name as the specification tracks it
-tvars == <<l, nmis, names>>
+          names,     \* C20: handle -> distinguished name as the specification tracks it
+          cov        \* coverage ghost: set of coverage tokens reached by the validated events
+tvars == <<l, nmis, names, cov>>
 
 ReqCommon(ev) == { <<"C10.no_panic", ev.out # "Panic">>, <<"C10.no_timeout", ev.out # "Timeout">> }
 
@@ -76,6 +77,16 @@ ReqStringEv(ev) ==
                 <<"C04.der_strict", ev.obs.derStrict = <<>> >> }
          [] OTHER -> {}
 
+ReqKeyEv(ev) ==
+  IF ev.op = "AlgTable" THEN ReqAlgTable(ev.obs)
+  ELSE ReqKeyLoad(ev.be, ev.args, ev.out, ev.obs)
+
+(* coverage tokens contributed by an event *)
+CovOf(ev) ==
+  CASE ev.op = "Pem" /\ ev.out = "Ok" -> { <<"pem", ev.args.kind, ev.args.derLen % 48>>, <<"pemalg", ev.args.kind, ev.args.alg>> }
+    [] OTHER -> {}
+PemResiduesCovered == \A k \in {"cert", "csr", "crl"} : \A r \in 0..47 : <<"pem", k, r>> \in cov
+
 (* ---- C20: the distinguished-name container, judged against the specification's own state ---- *)
 NameOf(h) == IF h \in DOMAIN names THEN names[h] ELSE <<>>
 
@@ -107,6 +118,8 @@ ReqOf(ev) ==
   (CASE ev.op = "Cert" -> ReqCertEv(ev)
      [] ev.op = "Csr" -> ReqCsrEv(ev)
      [] ev.op = "Crl" -> ReqCrlEv(ev)
+     [] ev.op = "Pem" -> (IF ev.out = "Ok" THEN ReqPem(ev.args, ev.obs) ELSE {<<"C14.pem_produced", FALSE>>})
+     [] ev.op \in {"KeyLoad", "AlgTable"} -> ReqKeyEv(ev)
      [] ev.op \in {"StringRuns", "StringBytes", "StringMulti", "StringPlace"} -> ReqStringEv(ev)
      [] ev.op \in {"DnPush", "DnRemove", "DnEq", "DnEncode"} -> ReqDnEv(ev)
      [] OTHER -> {})
@@ -115,7 +128,7 @@ Bad(ev) == {cl[1] : cl \in {x \in ReqOf(ev) : ~x[2]}}
 
 Report(ev, bad) == \A cl \in bad : PrintT("MISMATCH|" \o ToString(ev.i) \o "|" \o cl \o "|" \o ev.case)
 
-TraceInit == l = 1 /\ nmis = 0 /\ names = <<>>
+TraceInit == l = 1 /\ nmis = 0 /\ names = <<>> /\ cov = {}
 
 Step == /\ l <= Len(Rec)
         /\ LET ev == Rec[l]
@@ -123,12 +136,14 @@ Step == /\ l <= Len(Rec)
            IN /\ Report(ev, bad)
               /\ nmis' = nmis + Cardinality(bad)
               /\ names' = NamesNext(ev)
+              /\ cov' = cov \cup CovOf(ev)
         /\ l' = l + 1
 
 Done == /\ l = Len(Rec) + 1
-        /\ PrintT("FINAL|" \o ToString(Len(Rec)) \o "|" \o ToString(nmis))
+        /\ PrintT("FINAL|" \o ToString(Len(Rec)) \o "|" \o ToString(nmis) \o "|pemResidues=" \o ToString(PemResiduesCovered)
+                  \o ";covTokens=" \o ToString(Cardinality(cov)))
         /\ l' = l + 1
-        /\ UNCHANGED <<nmis, names>>
+        /\ UNCHANGED <<nmis, names, cov>>
 
 TraceNext == Step \/ Done
 TraceSpec == TraceInit /\ [][TraceNext]_tvars
